@@ -220,11 +220,11 @@ fn u_mul(a: u64, b: u64) -> RefOut {
     if p > u64::MAX as u128 { RefOut::Overflow } else { RefOut::Val(p as i128) }
 }
 
-// @unit id=ops.add.sint.sint props=C01,C02,C03 tier=quick kind=proof fn=apply_binary,numeric_arith,signed_from_i128,to_i64,wider_numeric
+// @unit id=ops.add.sint.sint props=C01,C02,C03 tier=thorough kind=proof fn=apply_binary,numeric_arith,signed_from_i128,to_i64,wider_numeric
 signed_arith!(ops_add_sint_sint, Add, 0, 0, |a, b| RefOut::Val(a as i128 + b as i128), [is_val, is_ovf]);
 // @unit id=ops.add.int.int props=C01,C02,C03 tier=quick kind=proof fn=apply_binary,numeric_arith,signed_from_i128,to_i64,wider_numeric
 signed_arith!(ops_add_int_int, Add, 1, 1, |a, b| RefOut::Val(a as i128 + b as i128), [is_val, is_ovf]);
-// @unit id=ops.add.dint.dint props=C01,C02,C03 tier=quick kind=proof fn=apply_binary,numeric_arith,signed_from_i128,to_i64,wider_numeric
+// @unit id=ops.add.dint.dint props=C01,C02,C03 tier=thorough kind=proof fn=apply_binary,numeric_arith,signed_from_i128,to_i64,wider_numeric
 signed_arith!(ops_add_dint_dint, Add, 2, 2, |a, b| RefOut::Val(a as i128 + b as i128), [is_val, is_ovf]);
 // @unit id=ops.add.lint.lint props=C01,C02,C03 tier=quick kind=proof fn=apply_binary,numeric_arith,signed_from_i128,to_i64,wider_numeric
 signed_arith!(ops_add_lint_lint, Add, 3, 3, |a, b| RefOut::Val(a as i128 + b as i128), [is_val, is_ovf]);
@@ -235,16 +235,16 @@ signed_arith!(ops_add_lint_int, Add, 3, 1, |a, b| RefOut::Val(a as i128 + b as i
 
 // @unit id=ops.sub.sint.sint props=C01,C02,C03 tier=thorough kind=proof fn=apply_binary,numeric_arith,signed_from_i128
 signed_arith!(ops_sub_sint_sint, Sub, 0, 0, |a, b| RefOut::Val(a as i128 - b as i128), [is_val, is_ovf]);
-// @unit id=ops.sub.int.int props=C01,C02,C03 tier=quick kind=proof fn=apply_binary,numeric_arith,signed_from_i128
+// @unit id=ops.sub.int.int props=C01,C02,C03 tier=thorough kind=proof fn=apply_binary,numeric_arith,signed_from_i128
 signed_arith!(ops_sub_int_int, Sub, 1, 1, |a, b| RefOut::Val(a as i128 - b as i128), [is_val, is_ovf]);
-// @unit id=ops.sub.dint.dint props=C01,C02,C03 tier=quick kind=proof fn=apply_binary,numeric_arith,signed_from_i128
+// @unit id=ops.sub.dint.dint props=C01,C02,C03 tier=thorough kind=proof fn=apply_binary,numeric_arith,signed_from_i128
 signed_arith!(ops_sub_dint_dint, Sub, 2, 2, |a, b| RefOut::Val(a as i128 - b as i128), [is_val, is_ovf]);
 // @unit id=ops.sub.lint.lint props=C01,C02,C03 tier=quick kind=proof fn=apply_binary,numeric_arith,signed_from_i128
 signed_arith!(ops_sub_lint_lint, Sub, 3, 3, |a, b| RefOut::Val(a as i128 - b as i128), [is_val, is_ovf]);
 // @unit id=ops.sub.int.dint props=C01,C02,C03 tier=quick kind=proof fn=apply_binary,numeric_arith,signed_from_i128,wider_numeric
 signed_arith!(ops_sub_int_dint, Sub, 1, 2, |a, b| RefOut::Val(a as i128 - b as i128), [is_val, is_ovf]);
 
-// @unit id=ops.mul.sint.sint props=C01,C02,C03 tier=quick kind=proof fn=apply_binary,numeric_arith,signed_from_i128
+// @unit id=ops.mul.sint.sint props=C01,C02,C03 tier=thorough kind=proof fn=apply_binary,numeric_arith,signed_from_i128
 signed_arith!(ops_mul_sint_sint, Mul, 0, 0, |a, b| RefOut::Val(a as i128 * b as i128), [is_val, is_ovf]);
 // @unit id=ops.mul.int.int props=C01,C02,C03 tier=quick kind=proof fn=apply_binary,numeric_arith,signed_from_i128
 signed_arith!(ops_mul_int_int, Mul, 1, 1, |a, b| RefOut::Val(a as i128 * b as i128), [is_val, is_ovf]);
@@ -257,7 +257,7 @@ signed_arith!(ops_mul_dint_sint, Mul, 2, 0, |a, b| RefOut::Val(a as i128 * b as 
 
 // @unit id=ops.add.usint.usint props=C01,C02,C03 tier=thorough kind=proof fn=apply_binary,numeric_arith,unsigned_from_u128,to_u64
 unsigned_arith!(ops_add_usint_usint, Add, 0, 0, |a, b| RefOut::Val(a as i128 + b as i128), [is_val, is_ovf]);
-// @unit id=ops.add.uint.uint props=C01,C02,C03 tier=quick kind=proof fn=apply_binary,numeric_arith,unsigned_from_u128,to_u64
+// @unit id=ops.add.uint.uint props=C01,C02,C03 tier=thorough kind=proof fn=apply_binary,numeric_arith,unsigned_from_u128,to_u64
 unsigned_arith!(ops_add_uint_uint, Add, 1, 1, |a, b| RefOut::Val(a as i128 + b as i128), [is_val, is_ovf]);
 // @unit id=ops.add.udint.udint props=C01,C02,C03 tier=thorough kind=proof fn=apply_binary,numeric_arith,unsigned_from_u128,to_u64
 unsigned_arith!(ops_add_udint_udint, Add, 2, 2, |a, b| RefOut::Val(a as i128 + b as i128), [is_val, is_ovf]);
@@ -267,13 +267,13 @@ unsigned_arith!(ops_add_ulint_ulint, Add, 3, 3, |a, b| RefOut::Val(a as i128 + b
 unsigned_arith!(ops_add_usint_udint, Add, 0, 2, |a, b| RefOut::Val(a as i128 + b as i128), [is_val, is_ovf]);
 // @unit id=ops.sub.uint.uint props=C01,C02,C03 tier=quick kind=proof fn=apply_binary,numeric_arith,unsigned_from_u128,to_u64
 unsigned_arith!(ops_sub_uint_uint, Sub, 1, 1, |a, b| u_sub(a, b), [is_val, is_ovf]);
-// @unit id=ops.sub.ulint.ulint props=C01,C02,C03 tier=quick kind=proof fn=apply_binary,numeric_arith,unsigned_from_u128,to_u64
+// @unit id=ops.sub.ulint.ulint props=C01,C02,C03 tier=thorough kind=proof fn=apply_binary,numeric_arith,unsigned_from_u128,to_u64
 unsigned_arith!(ops_sub_ulint_ulint, Sub, 3, 3, |a, b| u_sub(a, b), [is_val, is_ovf]);
 // @unit id=ops.sub.udint.usint props=C01,C02,C03 tier=thorough kind=proof fn=apply_binary,numeric_arith,unsigned_from_u128,to_u64,wider_numeric
 unsigned_arith!(ops_sub_udint_usint, Sub, 2, 0, |a, b| u_sub(a, b), [is_val, is_ovf]);
-// @unit id=ops.mul.usint.usint props=C01,C02,C03 tier=quick kind=proof fn=apply_binary,numeric_arith,unsigned_from_u128,to_u64
+// @unit id=ops.mul.usint.usint props=C01,C02,C03 tier=thorough kind=proof fn=apply_binary,numeric_arith,unsigned_from_u128,to_u64
 unsigned_arith!(ops_mul_usint_usint, Mul, 0, 0, |a, b| u_mul(a, b), [is_val, is_ovf]);
-// @unit id=ops.mul.uint.uint props=C01,C02,C03 tier=quick kind=proof fn=apply_binary,numeric_arith,unsigned_from_u128,to_u64
+// @unit id=ops.mul.uint.uint props=C01,C02,C03 tier=thorough kind=proof fn=apply_binary,numeric_arith,unsigned_from_u128,to_u64
 unsigned_arith!(ops_mul_uint_uint, Mul, 1, 1, |a, b| u_mul(a, b), [is_val, is_ovf]);
 // @unit id=ops.mul.udint.udint props=C01,C02,C03 tier=quick kind=proof fn=apply_binary,numeric_arith,unsigned_from_u128,to_u64
 unsigned_arith!(ops_mul_udint_udint, Mul, 2, 2, |a, b| u_mul(a, b), [is_val, is_ovf]);
@@ -477,17 +477,17 @@ macro_rules! cmp_harness {
     };
 }
 
-// @unit id=ops.cmp.int.int props=C01,C02 tier=quick kind=proof fn=apply_binary,numeric_cmp,numeric_eq,to_i64
+// @unit id=ops.cmp.int.int props=C01,C02 tier=thorough kind=proof fn=apply_binary,numeric_cmp,numeric_eq,to_i64
 cmp_harness!(ops_cmp_int_int, Value::Int, i16, Value::Int, i16, i128);
 // @unit id=ops.cmp.lint.lint props=C01,C02 tier=quick kind=proof fn=apply_binary,numeric_cmp,numeric_eq,to_i64
 cmp_harness!(ops_cmp_lint_lint, Value::LInt, i64, Value::LInt, i64, i128);
-// @unit id=ops.cmp.sint.dint props=C01,C02 tier=quick kind=proof fn=apply_binary,numeric_cmp,numeric_eq,to_i64,wider_numeric
+// @unit id=ops.cmp.sint.dint props=C01,C02 tier=thorough kind=proof fn=apply_binary,numeric_cmp,numeric_eq,to_i64,wider_numeric
 cmp_harness!(ops_cmp_sint_dint, Value::SInt, i8, Value::DInt, i32, i128);
 // @unit id=ops.cmp.dint.dint props=C01,C02 tier=thorough kind=proof fn=apply_binary,numeric_cmp,numeric_eq,to_i64
 cmp_harness!(ops_cmp_dint_dint, Value::DInt, i32, Value::DInt, i32, i128);
 // @unit id=ops.cmp.uint.uint props=C01,C02 tier=quick kind=proof fn=apply_binary,numeric_cmp,numeric_eq,to_u64
 cmp_harness!(ops_cmp_uint_uint, Value::UInt, u16, Value::UInt, u16, i128);
-// @unit id=ops.cmp.ulint.ulint props=C01,C02 tier=quick kind=proof fn=apply_binary,numeric_cmp,numeric_eq,to_u64
+// @unit id=ops.cmp.ulint.ulint props=C01,C02 tier=thorough kind=proof fn=apply_binary,numeric_cmp,numeric_eq,to_u64
 cmp_harness!(ops_cmp_ulint_ulint, Value::ULInt, u64, Value::ULInt, u64, i128);
 // @unit id=ops.cmp.usint.udint props=C01,C02 tier=thorough kind=proof fn=apply_binary,numeric_cmp,numeric_eq,to_u64,wider_numeric
 cmp_harness!(ops_cmp_usint_udint, Value::USInt, u8, Value::UDInt, u32, i128);
@@ -497,7 +497,7 @@ cmp_harness!(ops_cmp_byte_byte, Value::Byte, u8, Value::Byte, u8, i128);
 cmp_harness!(ops_cmp_word_word, Value::Word, u16, Value::Word, u16, i128);
 // @unit id=ops.cmp.dword.dword props=C01,C02 tier=thorough kind=proof fn=apply_binary,non_numeric_cmp,ord_cmp,numeric_eq
 cmp_harness!(ops_cmp_dword_dword, Value::DWord, u32, Value::DWord, u32, i128);
-// @unit id=ops.cmp.lword.lword props=C01,C02 tier=quick kind=proof fn=apply_binary,non_numeric_cmp,ord_cmp,numeric_eq
+// @unit id=ops.cmp.lword.lword props=C01,C02 tier=thorough kind=proof fn=apply_binary,non_numeric_cmp,ord_cmp,numeric_eq
 cmp_harness!(ops_cmp_lword_lword, Value::LWord, u64, Value::LWord, u64, i128);
 // @unit id=ops.cmp.char.char props=C01,C02 tier=thorough kind=proof fn=apply_binary,non_numeric_cmp,ord_cmp,numeric_eq
 cmp_harness!(ops_cmp_char_char, Value::Char, u8, Value::Char, u8, i128);
@@ -519,7 +519,7 @@ cmp_harness!(ops_cmp_time, mk_time, i64, mk_time, i64, i128);
 cmp_harness!(ops_cmp_ltime, mk_ltime, i64, mk_ltime, i64, i128);
 // @unit id=ops.cmp.date props=C01,C02 tier=thorough kind=proof fn=apply_binary,time_cmp,time_cmp_values,numeric_eq
 cmp_harness!(ops_cmp_date, mk_date, i64, mk_date, i64, i128);
-// @unit id=ops.cmp.tod props=C01,C02 tier=quick kind=proof fn=apply_binary,time_cmp,time_cmp_values,numeric_eq
+// @unit id=ops.cmp.tod props=C01,C02 tier=thorough kind=proof fn=apply_binary,time_cmp,time_cmp_values,numeric_eq
 cmp_harness!(ops_cmp_tod, mk_tod, i64, mk_tod, i64, i128);
 // @unit id=ops.cmp.dt props=C01,C02 tier=thorough kind=proof fn=apply_binary,time_cmp,time_cmp_values,numeric_eq
 cmp_harness!(ops_cmp_dt, mk_dt, i64, mk_dt, i64, i128);
@@ -566,11 +566,11 @@ macro_rules! bit_harness {
 
 // @unit id=ops.bit.bool props=C01,C02,C03 tier=quick kind=proof fn=apply_binary,logical_or_bitwise
 bit_harness!(ops_bit_bool, Bool, bool);
-// @unit id=ops.bit.byte props=C01,C02,C03 tier=quick kind=proof fn=apply_binary,logical_or_bitwise,bit_op
+// @unit id=ops.bit.byte props=C01,C02,C03 tier=thorough kind=proof fn=apply_binary,logical_or_bitwise,bit_op
 bit_harness!(ops_bit_byte, Byte, u8);
 // @unit id=ops.bit.word props=C01,C02,C03 tier=quick kind=proof fn=apply_binary,logical_or_bitwise,bit_op
 bit_harness!(ops_bit_word, Word, u16);
-// @unit id=ops.bit.dword props=C01,C02,C03 tier=quick kind=proof fn=apply_binary,logical_or_bitwise,bit_op
+// @unit id=ops.bit.dword props=C01,C02,C03 tier=thorough kind=proof fn=apply_binary,logical_or_bitwise,bit_op
 bit_harness!(ops_bit_dword, DWord, u32);
 // @unit id=ops.bit.lword props=C01,C02,C03 tier=quick kind=proof fn=apply_binary,logical_or_bitwise,bit_op
 bit_harness!(ops_bit_lword, LWord, u64);
@@ -676,7 +676,7 @@ macro_rules! point_with_time {
 
 // @unit id=ops.tod.add.time props=C01,C02,C03 tier=quick kind=proof timeout=600 fn=time_arith,time_of_day_with_time,duration_to_ticks
 point_with_time!(ops_tod_add_time, mk_tod, Tod, Add, false, |a, k| a as i128 + k);
-// @unit id=ops.tod.sub.time props=C01,C02,C03 tier=quick kind=proof timeout=600 fn=time_arith,time_of_day_with_time,duration_to_ticks
+// @unit id=ops.tod.sub.time props=C01,C02,C03 tier=thorough kind=proof timeout=600 fn=time_arith,time_of_day_with_time,duration_to_ticks
 point_with_time!(ops_tod_sub_time, mk_tod, Tod, Sub, false, |a, k| a as i128 - k);
 // @unit id=ops.time.add.tod props=C01,C02,C03 tier=thorough kind=proof timeout=600 fn=time_arith,time_of_day_with_time,duration_to_ticks
 point_with_time!(ops_time_add_tod, mk_tod, Tod, Add, true, |a, k| a as i128 + k);
@@ -854,7 +854,7 @@ fn ops_mixed_add_dint_uint() {
     assert!(ok, "DINT + UINT with a non-negative DINT is exact in UINT, Overflow iff out of range");
 }
 
-// @unit id=ops.mixed.cmp.dint.uint props=C01,C02 tier=quick kind=proof fn=apply_binary,numeric_cmp,numeric_eq,to_u64,wider_numeric
+// @unit id=ops.mixed.cmp.dint.uint props=C01,C02 tier=thorough kind=proof fn=apply_binary,numeric_cmp,numeric_eq,to_u64,wider_numeric
 #[kani::proof]
 fn ops_mixed_cmp_dint_uint() {
     let a: i32 = kani::any();
@@ -886,7 +886,7 @@ fn ipow(base: i128, exp: u32) -> Option<i128> {
     Some(acc)
 }
 
-// @unit id=ops.pow.int.int props=C01,C02,C03 tier=quick kind=bounded bound="exponent 0..=5, base full INT domain" timeout=900 fn=apply_binary,numeric_arith,signed_from_i128
+// @unit id=ops.pow.int.int props=C01,C02,C03 tier=thorough kind=bounded bound="exponent 0..=5, base full INT domain" timeout=900 fn=apply_binary,numeric_arith,signed_from_i128
 #[kani::proof]
 #[kani::unwind(8)]
 fn ops_pow_int_int() {
